@@ -600,7 +600,7 @@ func (v *FnVC) wf(t Term, depth int) string {
 	case *types.Interface:
 		return fmt.Sprintf("(and (>= (itag %s) 0) (=> (= (itag %s) 0) (= (ival %s) 0)))", t.S, t.S, t.S)
 	case *types.Slice:
-		return fmt.Sprintf("(and (>= (sarr %s) 0) (= (soff %s) 0) (>= (slen %s) 0) (>= (scap %s) (slen %s)) (=> (= (sarr %s) 0) (= (scap %s) 0)))", t.S, t.S, t.S, t.S, t.S, t.S, t.S)
+		return fmt.Sprintf("(and (>= (sarr %s) 0) (= (soff %s) 0) (>= (slen %s) 0) (>= (scap %s) (slen %s)) (<= (scap %s) 9223372036854775807) (=> (= (sarr %s) 0) (= (scap %s) 0)))", t.S, t.S, t.S, t.S, t.S, t.S, t.S, t.S)
 	case *types.Struct:
 		if depth <= 0 {
 			return "true"
@@ -641,7 +641,7 @@ func (v *FnVC) wf(t Term, depth int) string {
 
 func (v *FnVC) strWF(s string) string {
 	e := v.S.StrLit("")
-	return fmt.Sprintf("(and (>= (len_s %s) 0) (= (= (len_s %s) 0) (= %s %s)))", s, s, s, e)
+	return fmt.Sprintf("(and (>= (len_s %s) 0) (<= (len_s %s) 9223372036854775807) (= (= (len_s %s) 0) (= %s %s)))", s, s, s, s, e)
 }
 
 func (v *FnVC) assumeWF(t Term) {
